@@ -13,7 +13,7 @@ PROPS['C11'] = dict(
 
 PROPS['C04'] = dict(
     title='Tokenizer vocabulary maps are mutually consistent bijections',
-    groups=[dict(template='c04_bpe.rs')],
+    groups=[dict(template='c04_bpe.rs'), dict(template='c04_byte.rs'), dict(template='c04_vocab.rs')],
     input_search=True,
     claim='',
     not_covered=[],
